@@ -155,6 +155,22 @@ example :
       signInfo := [(Ex.B, ⟨3, 0, 5000, 0, 0⟩)] }
     (handleUnjail s 9 4999 Ex.B Ex.B).2 = .err 104 ∧ (handleUnjail s 9 5000 Ex.B Ex.B).2 = .ok := by decide
 
+/-- `B` of the example world, jailed for downtime until block time 5000 -/
+def jailedB : State := { jailValidator Ex.s0 Ex.B with signInfo := [(Ex.B, ⟨3, 0, 5000, 0, 0⟩)] }
+
+/-- **The jail period does not survive an edit-stake** (as coded; reproduced on the real application, known finding
+`unjailed-early-after-edit-stake`): `EditStakeValidator` deletes the record together with its signing info and —
+from the patch height 30040 on — writes a fresh signing info whose `JailedUntil` is the zero time.  At block time
+4999 the unjail of `B` (jailed until 5000) is rejected (104); after an edit-stake by `B` that changes nothing the same
+unjail is accepted.  (Below the patch height the signing info is missing after the edit and the unjail answers 101
+until some later write re-creates it, again with a zero `JailedUntil`.)  `unjail_requires` holds throughout: it
+speaks about the *stored* `JailedUntil`. -/
+theorem edit_stake_wipes_jail_period :
+    (handleUnjail jailedB 30041 4999 Ex.B Ex.B).2 = .err 104 ∧
+    (handleStake jailedB 30041 Ex.mB Ex.B).2 = .ok ∧
+    (handleUnjail (handleStake jailedB 30041 Ex.mB Ex.B).1 30042 4999 Ex.B Ex.B).2 = .ok ∧
+    (handleUnjail (handleStake jailedB 9 Ex.mB Ex.B).1 10 4999 Ex.B Ex.B).2 = .err 101 := by decide
+
 /-- A rejected unjail leaves every record as it was. -/
 theorem unjail_rejected_keeps_records (s : State) (h t : Int) (a signer : Addr)
     (herr : (handleUnjail s h t a signer).2 ≠ .ok) : (handleUnjail s h t a signer).1.vals = s.vals :=
